@@ -34,7 +34,8 @@ func shapeA(bn uint64) (int, func(int) int, func(int) int) {
 	return int(bn % 3), func(ti int) int { return (int(bn) + ti) % 3 }, func(ti int) int { return 1 + ti%2 }
 }
 func shapeT(bn uint64) (int, func(int) int, func(int) int) {
-	return 1 + int(bn%2), func(ti int) int { return 1 + ti }, func(ti int) int { return 1 + (int(bn)+ti)%2 }
+	// transaction 0 carries no log (a plain transfer): its receipt must still be attached
+	return 1 + int(bn%2), func(ti int) int { return ti + int(bn%3)/2 }, func(ti int) int { return 1 + (int(bn)+ti)%2 }
 }
 
 func newNodes() *nodes {
